@@ -250,7 +250,7 @@ example : WFGeff exG 2 1 [("values", exDense), ("poly", exVlen), ("t", exT)] [] 
     simp only [List.mem_cons, List.not_mem_nil, or_false] at hm
     rcases hm with rfl | rfl | rfl
     · exact ⟨⟨by decide, (fun m hm => by cases hm; rfl), (by show Dtype.f32 ∈ denseDtypes; decide)⟩,
-        ⟨(fun m hm => by cases hm; exact ⟨rfl, by decide⟩), ⟨rfl, by decide⟩⟩⟩
+        ⟨(fun m hm => by cases hm; exact ⟨rfl, by decide, by decide⟩), ⟨rfl, by decide⟩⟩⟩
     · refine ⟨⟨by decide, (fun m hm => by cases hm), ?_, exHomog, (by decide)⟩, ⟨(fun m hm => by cases hm), rfl⟩⟩
       intro x hx
       simp only [List.mem_cons, List.not_mem_nil, or_false] at hx
